@@ -173,4 +173,30 @@ theorem source_simulates_model {σ : Type} (ops : ShardsOps σ) (st : DecoderWor
       ∀ w', w.addOriginal i sh = .ok w' → DecBook st' w') :=
   srcD_addo_simulates ops st w i sh hb hu
 
+open RS.RustW RS.SrcW in
+/-- … and likewise for `add_recovery_shard`, for `decode_begin` against the verdict of the model's `decode`,
+    and for `reset` / `reset_received`: the simulation is closed under every bookkeeping step, so along any
+    history the translated source and the model stay in the relation `DecBook` and answer alike -/
+theorem source_simulates_model_steps {σ : Type} (ops : ShardsOps σ) (stale : Stale) (st : DecoderWorkS σ)
+    (w : DecWork) (hb : DecBook st w) :
+    (∀ i sh, st.recovery_base_pos + i < 18446744073709551616 →
+      (∀ e st', DecoderWork_add_recovery_shard ops st i sh = some (Res.Err e, st') →
+        w.addRecovery i sh = .err (errOfW e)) ∧
+      (∀ e, w.addRecovery i sh = .err e →
+        ∃ e', DecoderWork_add_recovery_shard ops st i sh = some (Res.Err e', st) ∧ errOfW e' = e) ∧
+      (∀ st', DecoderWork_add_recovery_shard ops st i sh = some (Res.Ok (), st') →
+        ∀ w', w.addRecovery i sh = .ok w' → DecBook st' w')) ∧
+    (∀ (lw : Array Nat) (d : Decoder) (rate : Rate), d.inner = .some rate w →
+      st.original_received_count + st.recovery_received_count < 18446744073709551616 →
+      ((∃ out, (d.decode lw).1 = .ok out) ↔ ∃ v, DecoderWork_decode_begin ops st = some (Res.Ok v, st))) ∧
+    (∀ k r sb ob rb wc, sb % 2 = 0 → ob + k < 18446744073709551616 → rb + r < 18446744073709551616 →
+      (∃ w', w.reset stale k r sb ob rb wc = .ok w') ∧
+      ∃ st', DecoderWork_reset ops st k r sb ob rb wc = some ((), st') ∧
+        ∀ w', w.reset stale k r sb ob rb wc = .ok w' → DecBook st' w') ∧
+    (∃ st', DecoderWork_reset_received ops st = some ((), st') ∧ DecBook st' w.resetReceived) :=
+  ⟨fun i sh hu => srcD_addr_simulates ops st w i sh hb hu,
+   fun lw d rate hd hu => (srcD_begin_simulates ops st lw d rate w hd hb hu).2,
+   fun k r sb ob rb wc hsb h1 h2 => srcD_reset_simulates ops stale st w k r sb ob rb wc hsb h1 h2 (by rw [hb.2.2.2.2.2.2.2]),
+   srcD_reset_received_simulates ops st w hb⟩
+
 end RS
